@@ -265,6 +265,63 @@ func runC03(c *Ctx) {
 		c.mustFollow(fn, "ValidateCFHeader = ErrCheckpointMismatch", c.failEdges(g), mapDelete(isParam(fn, 1)), "delete(checkpoints, peer)", nil, 1)
 		// every ValidateCFHeader error other than mismatch aborts: err != nil returns
 		c.detectLoop(fn, "resolveConflict", isParam(fn, 1), true)
+		// ... and nobody else is banned here: each ban in resolveConflict
+		// has one of the tabled grounds - a checkpoint that contradicts a
+		// hard-coded one, a peer named by detectBadPeers (its filter
+		// headers do not match the filter it served), or a peer that sent no
+		// headers at all (an honest peer banned on another ground takes the
+		// honest value out of the comparison)
+		{
+			dbp := c.method("neutrino", "blockManager", "detectBadPeers")
+			grounds := map[ir.Edge]bool{}
+			for _, st := range g.sites {
+				grounds[st.br.Other()] = true
+			}
+			for _, st := range g.weak {
+				grounds[st.br.Other()] = true
+			}
+			isHdrMap := func(v ssa.Value) bool {
+				m, ok := v.Type().Underlying().(*types.Map)
+				if !ok {
+					return false
+				}
+				p, ok := m.Elem().(*types.Pointer)
+				if !ok {
+					return false
+				}
+				n, ok := p.Elem().(*types.Named)
+				return ok && n.Obj().Name() == "MsgCFHeaders"
+			}
+			miss := okIs("headers[peer]", find(fn, lookupsOn(isHdrMap)))
+			for _, st := range miss.sites {
+				grounds[st.br.Other()] = true
+			}
+			var bad, sites []string
+			for _, ban := range find(fn, c.banCalls()) {
+				sites = append(sites, c.at(ban))
+				okGround := false
+				for e := range grounds {
+					if ir.EdgeDominates(fn, e, ban.Block()) {
+						okGround = true
+					}
+				}
+				if a := argsOf(ban); len(a) >= 1 && ir.DerivesFrom(a[0], func(x ssa.Value) bool {
+					ia, isIA := x.(*ssa.IndexAddr)
+					if !isIA {
+						return false
+					}
+					e, isE := ir.Strip(ia.X).(*ssa.Extract)
+					return isE && e.Index == 0 && valIsCallTo(dbp)(e.Tuple)
+				}) {
+					okGround = true
+				}
+				if !okGround {
+					bad = append(bad, "the ban at "+c.at(ban)+" has none of the tabled grounds (checkpoint mismatch, named by detectBadPeers, no headers sent)")
+				}
+			}
+			sort.Strings(bad)
+			c.verdict(len(bad) == 0 && len(sites) >= 3, c.nm(fn)+" | bans only on the tabled grounds", c.P.Pos(fn.Pos()), fmt.Sprintf("%d ban site(s), each behind a tabled ground", len(sites)), join(bad), sites...)
+		}
 
 		// getUncheckpointedCFHeaders
 		fu := c.fn(fnUncheckCFH)
